@@ -183,6 +183,7 @@ def extra_oracles(op, rep, refrep, fresh, st, plan, now):
     if op.get("check_best") and rep["kind"] == "ok" and isinstance(d.get("loss"), float):
         a = op["args"]
         best_loss = d["loss"]
+        best_err = d.get("loss_err") or 0.0
         worst = None
         for nn in range(a["n"] + 1):
             for mm in range(a["m"] + 1):
@@ -194,8 +195,13 @@ def extra_oracles(op, rep, refrep, fresh, st, plan, now):
                 l1 = (r1.get("derived") or {}).get("loss")
                 if not isinstance(l1, float) or l1 != l1 or math.isinf(l1):
                     continue
-                if not (best_loss <= (1 + 1e-9) * l1):
-                    worst = {"n": nn, "m": mm, "single_fit_loss": l1, "best_fit_loss": best_loss, "best_fit_orders": [d["fn"]["n"], d["fn"]["m"]]}
+                e1 = (r1.get("derived") or {}).get("loss_err") or 0.0
+                # two candidates whose losses differ by less than the evaluation uncertainty of the losses are
+                # legitimately ranked either way by the library's own (numpy) arithmetic: 2x for the library's side
+                slack = 1e-9 * l1 + 2.0 * (best_err + e1)
+                if not (best_loss <= l1 + slack):
+                    worst = {"n": nn, "m": mm, "single_fit_loss": l1, "best_fit_loss": best_loss, "best_fit_orders": [d["fn"]["n"], d["fn"]["m"]],
+                             "evaluation_uncertainty": [best_err, e1]}
                     break
             if worst:
                 break
